@@ -9,11 +9,11 @@
     enum        `"a" | "b" | …` (concrete strings, a default marker allowed)
     null pair   `null | X`  (X any class but a null pair)
     constant    a concrete string / bool / int (int64 range) / float
-    scalar      `string` (with strings.MinRunes / MaxRunes), `bool`, a number type with bounds
+    scalar      `string` (with strings.MinRunes / MaxRunes), `bool`, a number type with bounds, each also as `T | *v`
                 (`int32 & >=1 & <=5`, `float64 & >=0.5`, `int`, `uint`, `number`, …)
     any         `_`
     list        `[...X]`       map   `{[string]: X}`       struct  `{a: X, b?: Y}` (closed: inside a definition)
-  No default (`*v`) outside enums, no attribute, no `&` of two equal operands, no embedded definitions.
+  No default (`*v`) outside enums and scalars, no attribute, no `&` of two equal operands, no embedded definitions.
 
   `cueValid x fl fmt top n v d`: the document `d` unifies with `v` (fuel `n`: one unit per nesting level; a struct
   needs two more units for its absent optional members).  `x = true` is the STRICT reading that mirrors the
@@ -86,10 +86,12 @@ def isConstV (v : CV) : Bool :=
   plainNode v && !isOr v && v.info.concrete && constOKV (constVal v) &&
   (v.info.ikind == "string" || v.info.ikind == "bool" || v.info.ikind == "int" || v.info.ikind == "float" || v.info.ikind == "number")
 
-/-- the tokens of a number's syntax: `tok & bound & …` with exactly the first token a type name -/
+/-- the tokens of a number's syntax `tok & bound & … [| *default]`: exactly the first token is a type name; the bounds are
+    the `&`-parts of `csyn` (the syntax without the default) -/
 def numTok (i : CInfo) : Option String :=
   match splitStr i.syn " " with
-  | tok :: rest => if (numberKindOf tok).isSome && rest.all (fun p => (numberKindOf p).isNone) && i.csyn == i.syn then some tok else none
+  | tok :: rest =>
+    if (numberKindOf tok).isSome && rest.all (fun p => (numberKindOf p).isNone) && (splitStr i.csyn " & ").head? == some tok then some tok else none
   | [] => none
 
 /-- the IR scalar kind of a plain scalar view -/
@@ -100,8 +102,78 @@ def scalarKindOf (i : CInfo) : String :=
     | some tok => (numberKindOf tok).getD ""
     | none => ""
 
+def isIntJ : Json → Bool
+  | .num q => q % 4 == 0
+  | _ => false
+
+/-- CUE's reading of a number type name -/
+def cueTok (fl : Bool) (tok : String) (d : Json) : Bool :=
+  match d with
+  | .num q =>
+    if tok = "int" then q % 4 == 0
+    else if tok = "uint" then q % 4 == 0 && decide (0 ≤ q)
+    else if tok = "number" then true
+    else if tok = "float" ∨ tok = "float32" ∨ tok = "float64" then !(fl && q % 4 == 0)
+    else denScalar tok d
+  | _ => false
+
+def litVal (i : CInfo) (t : String) : Option Int :=
+  if i.cFloat then
+    match i.lits.find? (fun kv => kv.1 = t) with
+    | some (_, .float _ r) => Json.parseNum r
+    | _ => none
+  else (Cog.Front.JsonSchema.parseInt64 t).map (· * 4)
+
+/-- one `&`-part of a number's syntax that is a bound -/
+def boundOK (i : CInfo) (part : String) (q : Int) : Bool :=
+  match part.toList with
+  | '>' :: '=' :: t => (match litVal i (String.ofList t) with | some b => decide (b ≤ q) | none => false)
+  | '>' :: t => (match litVal i (String.ofList t) with | some b => decide (b < q) | none => false)
+  | '<' :: '=' :: t => (match litVal i (String.ofList t) with | some b => decide (q ≤ b) | none => false)
+  | '<' :: t => (match litVal i (String.ofList t) with | some b => decide (q < b) | none => false)
+  | _ => false
+
+def strConsOK (s : String) : List Conj → Bool
+  | [] => true
+  | c :: rest =>
+    (if c.op == "call" && c.callName == "strings.MinRunes" then
+       (match c.arg with | .v (.int _ n) => decide (n ≤ s.length) | _ => false)
+     else if c.op == "call" && c.callName == "strings.MaxRunes" then
+       (match c.arg with | .v (.int _ n) => decide ((s.length : Int) ≤ n) | _ => false)
+     else c.op == "no" && c.callName == "") && strConsOK s rest
+
+def validScalar (x fl : Bool) (i : CInfo) (d : Json) : Bool :=
+  (!x || denScalar (scalarKindOf i) d) &&
+  (if i.ikind == "string" then
+     (match d with | .str s => strConsOK s i.andsplit | _ => false)
+   else if i.ikind == "bool" then
+     (match d with | .bool _ => true | _ => false)
+   else
+     match numTok i, d with
+     | some tok, .num q => cueTok fl tok d && ((splitStr i.csyn " & ").drop 1).all (fun p => boundOK i p q)
+     | _, _ => false)
+
+def constJson : Val → Option Json
+  | .str s => some (.str s)
+  | .bool b => some (.bool b)
+  | .int _ n => some (.num (4 * n))
+  | .float _ r => (Json.parseNum r).map Json.num
+  | _ => none
+
+/-- `plainNode` but for the default: `T | *v` is evaluated by CUE to ONE value with a default (no `|` left in `Expr`);
+    the default must be a constant that the scalar itself admits -/
+def plainOrDefault (v : CV) : Bool :=
+  let i := v.info
+  i.refPath == "" && !(i.op == "and" && i.nargs == 2 && i.pairSub) && i.pair0Ref == "" && i.attrs.isEmpty &&
+  (!i.hasDefault ||
+    (match i.dflt with
+     | .v c => (match constJson c with
+         | some j => validScalar false false { i with hasDefault := false } j
+         | none => false)
+     | _ => false))
+
 def isPlainScalarV (v : CV) : Bool :=
-  plainNode v && !isOr v && !v.info.concrete &&
+  plainOrDefault v && !isOr v && !v.info.concrete &&
   (v.info.ikind == "string" || v.info.ikind == "bool" ||
    ((v.info.ikind == "int" || v.info.ikind == "float" || v.info.ikind == "number") && (numTok v.info).isSome))
 
@@ -237,63 +309,12 @@ def fragCueWhy (pkg : String) (fuel : Nat) (top : Top) : String :=
 
 /-! ### validity -/
 
-def isIntJ : Json → Bool
-  | .num q => q % 4 == 0
-  | _ => false
-
-/-- CUE's reading of a number type name -/
-def cueTok (fl : Bool) (tok : String) (d : Json) : Bool :=
-  match d with
-  | .num q =>
-    if tok = "int" then q % 4 == 0
-    else if tok = "uint" then q % 4 == 0 && decide (0 ≤ q)
-    else if tok = "number" then true
-    else if tok = "float" ∨ tok = "float32" ∨ tok = "float64" then !(fl && q % 4 == 0)
-    else denScalar tok d
-  | _ => false
-
-def litVal (i : CInfo) (t : String) : Option Int :=
-  if i.cFloat then
-    match i.lits.find? (fun kv => kv.1 = t) with
-    | some (_, .float _ r) => Json.parseNum r
-    | _ => none
-  else (Cog.Front.JsonSchema.parseInt64 t).map (· * 4)
-
-/-- one `&`-part of a number's syntax that is a bound -/
-def boundOK (i : CInfo) (part : String) (q : Int) : Bool :=
-  match part.toList with
-  | '>' :: '=' :: t => (match litVal i (String.ofList t) with | some b => decide (b ≤ q) | none => false)
-  | '>' :: t => (match litVal i (String.ofList t) with | some b => decide (b < q) | none => false)
-  | '<' :: '=' :: t => (match litVal i (String.ofList t) with | some b => decide (q ≤ b) | none => false)
-  | '<' :: t => (match litVal i (String.ofList t) with | some b => decide (q < b) | none => false)
-  | _ => false
-
-def strConsOK (s : String) : List Conj → Bool
-  | [] => true
-  | c :: rest =>
-    (if c.op == "call" && c.callName == "strings.MinRunes" then
-       (match c.arg with | .v (.int _ n) => decide (n ≤ s.length) | _ => false)
-     else if c.op == "call" && c.callName == "strings.MaxRunes" then
-       (match c.arg with | .v (.int _ n) => decide ((s.length : Int) ≤ n) | _ => false)
-     else c.op == "no" && c.callName == "") && strConsOK s rest
-
-def validScalar (x fl : Bool) (i : CInfo) (d : Json) : Bool :=
-  (!x || denScalar (scalarKindOf i) d) &&
-  (if i.ikind == "string" then
-     (match d with | .str s => strConsOK s i.andsplit | _ => false)
-   else if i.ikind == "bool" then
-     (match d with | .bool _ => true | _ => false)
-   else
-     match numTok i, d with
-     | some tok, .num q => cueTok fl tok d && ((splitStr i.syn " & ").drop 1).all (fun p => boundOK i p q)
-     | _, _ => false)
-
 /-- CUE fills in an absent regular member whose value is concrete without data: a constant, `null`, an open list (`[]`),
     a map (`{}`), an enum with a default marker, a struct of optional / fillable members, a reference to such a definition -/
 def fillable (pkg : String) (top : Top) : Nat → CV → Bool
   | 0, _ => false
   | k + 1, v =>
-    isConstV v || isListV v || isMapV v || isNullV v || (isEnumV v && v.info.hasDefault) ||
+    isConstV v || isListV v || isMapV v || isNullV v || (isEnumV v && v.info.hasDefault) || (isPlainScalarV v && v.info.hasDefault) ||
     (isStructV v && v.fields.all fun f => f.2.2.1 || fillable pkg top k f.2.2.2) ||
     (isLocalRef pkg v && match lookupEntry top v.info.refPath with
       | some (_, t) => fillable pkg top k t
